@@ -26,6 +26,34 @@ pub struct StreamBuilder {
 type PinnedFuture<T> = Pin<Box<dyn Future<Output = T> + Send>>;
 type ChunkFuture = PinnedFuture<VecDeque<StreamChunk>>;
 
+fn escape_text(text: &mut String) {
+    if let std::borrow::Cow::Owned(escaped) =
+        html_escape::encode_text(text.as_str())
+    {
+        *text = escaped;
+    }
+}
+
+fn escape_chunk(chunk: &mut StreamChunk) {
+    match chunk {
+        StreamChunk::Sync(text) => escape_text(text),
+        StreamChunk::Async { chunks } => {
+            let pending = mem::replace(
+                chunks,
+                Box::pin(async { VecDeque::new() }) as ChunkFuture,
+            );
+            *chunks = Box::pin(async move {
+                let mut chunks = pending.await;
+                chunks.iter_mut().for_each(escape_chunk);
+                chunks
+            });
+        }
+        // out-of-order chunks are replaced into the document by a script,
+        // they are not part of the text
+        StreamChunk::OutOfOrder { .. } => {}
+    }
+}
+
 impl StreamBuilder {
     /// Creates a new HTML stream.
     pub fn new(id: Option<Vec<u16>>) -> Self {
@@ -69,6 +97,24 @@ impl StreamBuilder {
     /// Mutates the synchronous buffer.
     pub fn with_buf(&mut self, fun: impl FnOnce(&mut String)) {
         fun(&mut self.sync_buf)
+    }
+
+    /// Marks the current end of the stream, so that everything rendered after it can be
+    /// escaped by [`escape_text_since`](Self::escape_text_since).
+    pub(crate) fn mark(&mut self) -> usize {
+        let sync = mem::take(&mut self.sync_buf);
+        if !sync.is_empty() {
+            self.chunks.push_back(StreamChunk::Sync(sync));
+        }
+        self.chunks.len()
+    }
+
+    /// HTML-escapes everything that has been rendered in order since `mark`, including
+    /// what asynchronous chunks will resolve to: this is for content that the browser
+    /// reads as text rather than as markup (like that of a `<textarea>`).
+    pub(crate) fn escape_text_since(&mut self, mark: usize) {
+        self.chunks.iter_mut().skip(mark).for_each(escape_chunk);
+        escape_text(&mut self.sync_buf);
     }
 
     /// Takes all chunks currently available in the stream, including the synchronous buffer.
